@@ -1,6 +1,6 @@
 #!/bin/bash
 # tools/run_all_seeded.sh : regression suite for the machinery itself. Every seeded change under
-# seeded/<id>/ is applied to /repo, the quick check of the property it breaks must report a
+# seeded/<id>/ is applied to /repo, the check of the property it breaks (quick tier unless meta.json says otherwise) must report a
 # violation (exit 1), and the change is reverted straight afterwards.
 set -u
 ROOT="$(cd "$(dirname "$0")/.." && pwd)"
@@ -10,10 +10,11 @@ for d in "$ROOT"/seeded/*/; do
   prop=$(python3 -c "import json;print(json.load(open('$d/meta.json'))['breaks_property'])")
   if ! git -C /repo apply --check "$d/patch.diff" 2>/dev/null; then echo "SKIP $id (patch no longer applies to the current tree)"; continue; fi
   git -C /repo apply "$d/patch.diff"
-  out=$("$ROOT/bin/check" "$prop" quick 2>&1); rc=$?
+  tier=$(python3 -c "import json;print(json.load(open('$d/meta.json')).get('tier','quick'))")
+  out=$("$ROOT/bin/check" "$prop" "$tier" 2>&1); rc=$?
   git -C /repo checkout -- .
   runs=$(echo "$out" | grep -oE "runs=[0-9]+" | head -1)
-  if [ $rc = 1 ] && echo "$out" | grep -q "^VIOLATION property=$prop"; then echo "CAUGHT $id by $prop ($runs)"; ok=$((ok+1)); else echo "MISSED $id by $prop (exit $rc, $runs)"; bad=$((bad+1)); fi
+  if [ $rc = 1 ] && echo "$out" | grep -q "^VIOLATION property=$prop"; then echo "CAUGHT $id by $prop $tier ($runs)"; ok=$((ok+1)); else echo "MISSED $id by $prop (exit $rc, $runs)"; bad=$((bad+1)); fi
   rm -f "$ROOT"/replays/*.json
 done
 "$ROOT/bin/build" >/dev/null 2>&1
